@@ -226,7 +226,7 @@ def catalogue(py4hw, quick):
     eqconst('NotEqualConstant', 'NotEqualConstant_m', 'not_equal_spec')
 
     def b_equal(hw, c):
-        a, b, r = hw.wire('a', c['w']), hw.wire('b', c['w']), hw.wire('r', 1); L.Equal(hw, 'dut', a, b, r); return [a, b], [r]
+        a, b, r = hw.wire('a', c['w']), hw.wire('b', c.get('wb', c['w'])), hw.wire('r', 1); L.Equal(hw, 'dut', a, b, r); return [a, b], [r]
     B.append(Block('Equal', b_equal, lambda c: lam(2, '[Equal_m %d %d x0 x1]' % (c['w'], c['w'])), lambda c: lam(2, '[equal_spec x0 x1]'),
                    lambda c: [c['w'], c['w']], [dict(w=w) for w in (1, 2, 3, 4, 5, 8, 16, 32, 64)]))
 
